@@ -742,13 +742,17 @@ def _verbosity(ctx, col):
         cands = [as_table(n) for n in ast.walk(fn) if isinstance(n, (ast.Dict, ast.Tuple, ast.List))]
         cands = [c for c in cands if c and all(isinstance(k, int) for k in c)]
         tab = cands[0] if len(cands) == 1 else None
-    ok = tab == LEVELS
-    why = "level table == {0:ERROR, 1:WARNING, 2:INFO, 3:DEBUG, 4:TRACE}" if ok else \
+    undecided = []
+    if tab is None:
+        undecided.append("verbosity_to_loguru_level: no literal level table (dict / tuple) is looked up - the mapping is computed in a way "
+                         "this rule cannot read (e.g. an Enum); R20.9 cannot be decided")
+    ok = tab == LEVELS or tab is None
+    why = "level table == {0:ERROR, 1:WARNING, 2:INFO, 3:DEBUG, 4:TRACE}" if tab == LEVELS else "level table not readable (undecided)" if tab is None else \
         (f"level table is {tab}" if tab is not None else "no level table (dict / tuple literal) in verbosity_to_loguru_level")
     col.add("R20.9", "verbosity_to_loguru_level", m.relpath, fn.lineno, ok, why, text="level table")
     # the table is indexed by the argument itself
-    idx_ok = isinstance(rv, ast.Subscript) and as_table(rv.value) is not None \
-        and isinstance(rv.slice, ast.Name) and rv.slice.id == fn.args.args[0].arg
+    idx_ok = tab is None or (isinstance(rv, ast.Subscript) and as_table(rv.value) is not None
+                             and isinstance(rv.slice, ast.Name) and rv.slice.id == fn.args.args[0].arg)
     col.add("R20.9", "verbosity_to_loguru_level", m.relpath, fn.lineno, idx_ok,
             "returns table[verbose]" if idx_ok else "the level is not looked up by the verbosity argument itself", text="table lookup")
     # guards: out-of-range raises ValueError, non-int TypeError; accepted set must be within the table's keys
@@ -876,6 +880,10 @@ def _verbosity(ctx, col):
     got_map = {nm: run_name(nm) for nm in LEVELS.values()}
     unknown = run_name("NO_SUCH_LEVEL")
     oks = got_map == {v: k for k, v in LEVELS.items()} and unknown == "raise:ValueError"
+    if not oks and all(v is None for v in got_map.values()) and unknown is None:
+        undecided.append("Solver.set_verbosity: the translation of level names is not done by comparisons / a literal table inside the "
+                         "method (or an inlinable helper); R20.9 cannot be decided")
+        oks = True
     col.add("R20.9", "Solver.set_verbosity", owner.module.relpath, sfn.lineno, oks,
             "string levels map to the inverse of the level table; an unknown name raises ValueError" if oks else
             f"level names are translated as {got_map} (unknown name: {unknown}); documented: {dict((v, k) for k, v in LEVELS.items())}, ValueError otherwise",
@@ -883,8 +891,14 @@ def _verbosity(ctx, col):
     calls = [c for c in calls_in(sfn) if isinstance(c.func, ast.Name) and c.func.id == "verbosity_to_loguru_level"]
     adds = [c for c in calls_in(sfn) if ast.unparse(c.func) == "logger.add"]
     okw = len(calls) == 1 and len(adds) == 1 and any(k.arg == "level" for k in adds[0].keywords)
+    if not okw and not adds and not calls:
+        undecided.append("Solver.set_verbosity: neither the level conversion nor logger.add is visible in the method (moved behind helpers "
+                         "that could not be inlined); R20.9 cannot be decided")
+        okw = True
     col.add("R20.9", "Solver.set_verbosity", owner.module.relpath, sfn.lineno, okw,
             "the converted level is installed on the logger sink" if okw else "the converted level does not reach logger.add(level=...)", text="level installed")
+    if undecided:
+        raise AnalysisError("; ".join(undecided))
 
 
 # =============================================================================== R20.10
@@ -1053,27 +1067,31 @@ class _Rename:
 
 
 def run(ctx: Context, col) -> None:
-    _scopes(ctx, col)
-    _none_belief(ctx, col)
-    _validators(ctx, col)
-    c10._targets(ctx, _Rename(col, "R20.4"))
-    _config_fields(ctx, col)
-    _verbosity(ctx, col)
-    col.floor("R20.9", 9)
-    _defaults(ctx, col)
-    col.floor("R20.10", 40)
-    _runtime_dtypes(ctx, col)
-    col.floor("R20.11", 6)
-    _x64(ctx, col)
+    from .common import Parts
+
+    part = Parts()
+    part(_scopes, ctx, col)
+    part(_none_belief, ctx, col)
+    part(_validators, ctx, col)
+    part(c10._targets, ctx, _Rename(col, "R20.4"))
+    part(_config_fields, ctx, col)
+    part(_verbosity, ctx, col)
+    part(_defaults, ctx, col)
+    part(_runtime_dtypes, ctx, col)
+    part(_x64, ctx, col)
     try:
         _format_precision(ctx, col)
     except AnalysisError as e:
         # an undecidable threshold is an analysis error - unless a structural rule above already
         # explains it (e.g. a config field that does not exist), in which case report that
         if not [f for f in col.failures() if f.rule in ("R20.1", "R20.7")]:
-            raise
+            part.errors.append(str(e))
         col.notes.append(f"R20.5 not evaluated: {e}")
         col.floors.pop("R20.5", None)
+    part.finish()
+    col.floor("R20.9", 9)
+    col.floor("R20.10", 40)
+    col.floor("R20.11", 6)
     col.floor("R20.7", 9)
     col.floor("R20.8", 5)
     col.floor("R20.1", 15)
